@@ -393,13 +393,7 @@ theorem bindPattern_succ (fuel : Nat) (cfg : Cfg) (env : Env) (p : Pattern) (xv 
   cases p with
   | var n => rfl
   | array ps => rfl
-  | object kvs =>
-    simp only [bindPattern]
-    congr 1
-    funext env' key
-    cases key with
-    | str str => cases str <;> rfl
-    | _ => rfl
+  | object kvs => rfl
 
 /-! ### `evalCall`, `callDef` -/
 
